@@ -64,7 +64,7 @@ class NoChoice(Ctx):
     """A context that always takes the default (for scenarios run without exploration)."""
 
 
-def explore(scenario, bound, on_exec=None, max_execs=None, root=()):
+def explore(scenario, bound, on_exec=None, max_execs=None, root=(), part=None):
     """Iterative deviation bounding (CHESS-style, 'deviation' in place of 'preemption').
 
     Runs `scenario` with every choice vector that departs from the defaults in at most
@@ -72,6 +72,8 @@ def explore(scenario, bound, on_exec=None, max_execs=None, root=()):
     `on_exec(ctx, outcome)` is called after each execution.
     The exploration is exhaustive within the bound unless `max_execs` is hit, which is
     reported as ``capped``.
+    `part=(k, n)` splits one exploration over n workers: worker k explores the executions whose FIRST deviation is at a
+    choice point with index = k (mod n); the all-defaults execution is reported by worker 0 only.
     """
     stats = {"execs": 0, "outcomes": {}, "capped": False, "max_points": 0, "bound": bound}
 
@@ -93,7 +95,8 @@ def explore(scenario, bound, on_exec=None, max_execs=None, root=()):
         stats["outcomes"][key] = stats["outcomes"].get(key, 0) + 1
         if len(ctx.points) > stats["max_points"]:
             stats["max_points"] = len(ctx.points)
-        if on_exec is not None:
+        is_root = part is not None and not prefix
+        if on_exec is not None and not (is_root and part[0] != 0):
             on_exec(ctx, outcome)
         if devs is None:  # root prefix: count its deviations from the defaults met on the way
             devs = sum(1 for (l, n, d), c in zip(ctx.points[: len(prefix)], ctx.choices[: len(prefix)]) if c != d)
@@ -101,6 +104,8 @@ def explore(scenario, bound, on_exec=None, max_execs=None, root=()):
             continue
         rec = [(l, n) for (l, n, d) in ctx.points]
         for i in range(len(prefix), len(ctx.points)):
+            if is_root and i % part[1] != part[0]:
+                continue
             label, n, d = ctx.points[i]
             for alt in range(n):
                 if alt == d:
